@@ -118,10 +118,17 @@ func scanDecode(out string) (string, error) {
 	return b.String(), nil
 }
 
-var c07Positions = []string{"print", "chain-last", "chain-first", "apply", "macro", "include", "loop"}
+// "after:<filter>" = the escape filter directly behind another built-in filter in one chain; the text that must come back
+// is then what {{ v|<filter> }} prints
+var c07Positions = []string{"print", "chain-last", "chain-first", "apply", "macro", "include", "loop",
+	"after:abs", "after:round", "after:number_format", "after:number_format(1, '<', '&')", "after:trim", "after:default('<d>')", "after:lower", "after:length", "after:first", "after:join('<')", "after:replace({'a': '<'})", "after:nl2br"}
 
 func c07Templates(pos, filter string) map[string]string {
 	t := map[string]string{}
+	if strings.HasPrefix(pos, "after:") {
+		t["main"] = "{{ v|" + strings.TrimPrefix(pos, "after:") + "|" + filter + " }}"
+		return t
+	}
 	switch pos {
 	case "print":
 		t["main"] = "{{ v|" + filter + " }}"
@@ -145,6 +152,14 @@ func c07Templates(pos, filter string) map[string]string {
 func (p *c07) checkOne(rec *core.Recorder, input interface{}, text string, pos, filter string, fallback bool) bool {
 	srcs := c07Templates(pos, filter)
 	rec.Count("position:"+pos, 1)
+	if strings.HasPrefix(pos, "after:") {
+		pre := renderFresh(map[string]string{"main": "{{ v|" + strings.TrimPrefix(pos, "after:") + " }}"}, "main", map[string]interface{}{"v": input}, nil)
+		if pre.Err != nil || pre.Panicked {
+			rec.Count("skipped-prefilter-fails", 1)
+			return true
+		}
+		text = pre.Out
+	}
 	if fallback {
 		rec.Count("fallback-config-checks", 1)
 	}
